@@ -1097,78 +1097,94 @@ let accept_code c actor obj val0 =
                 (kseq (k_addr (fun a -> a.ms.head) val0)
                   (kseq (fun a -> Some (set_tag a a.ms.nn (a.ptag p0)))
                     (kstep (fun _ -> PStep p0)))))
-       else if Z.eqb c (Zpos (XO (XI (XI (XO XH)))))
+       else if Z.eqb c (Zpos (XO (XI (XO (XO (XO XH))))))
             then kseq (at_q p0 Q1)
-                   (kseq (kstep (fun _ -> PStep p0))
-                     (kseq (at_q p0 Q2)
-                       (kseq (k_tobj obj) (kstep (fun _ -> PStep p0)))))
-            else if Z.eqb c (Zpos (XI (XO (XI (XO XH)))))
-                 then kseq (at_q p0 Q3)
-                        (kseq (k_nobj (fun a -> (a.ms.p p0).qprev) obj)
-                          (kseq (k_addr (fun a -> (a.ms.p p0).qn) val0)
-                            (kstep (fun _ -> PStep p0))))
-                 else if Z.eqb c (Zpos (XO XH))
-                      then kseq (at_q p0 QIdle)
-                             (kseq
-                               (kguard (fun a ->
-                                 (&&) (a.pcall p0)
-                                   (eqb (a.ms.p p0).qhead (znz obj))))
+                   (kseq (k_addr (fun a -> (a.ms.p p0).qprev) val0)
+                     (kstep (fun _ -> PStep p0)))
+            else if Z.eqb c (Zpos (XO (XI (XI (XO XH)))))
+                 then kseq (at_q p0 Q2)
+                        (kseq (k_tobj obj) (kstep (fun _ -> PStep p0)))
+                 else if Z.eqb c (Zpos (XI (XO (XI (XO XH)))))
+                      then kseq (at_q p0 Q3)
+                             (kseq (k_nobj (fun a -> (a.ms.p p0).qprev) obj)
                                (kseq (k_addr (fun a -> (a.ms.p p0).qn) val0)
-                                 (fun a -> Some (set_push a p0 Z0 false))))
-                      else if Z.eqb c (Zpos (XI XH))
-                           then kseq (k_cons actor)
-                                  (kseq (in_call Z0)
-                                    (kseq (kstep (fun _ -> Pop)) (fun a ->
-                                      Some (set_kcall a (Zpos (XI XH))))))
-                           else if Z.eqb c (Zpos (XI (XO XH)))
+                                 (kstep (fun _ -> PStep p0))))
+                      else if Z.eqb c (Zpos (XO XH))
+                           then kseq (at_q p0 QIdle)
+                                  (kseq
+                                    (kguard (fun a ->
+                                      (&&) (a.pcall p0)
+                                        (eqb (a.ms.p p0).qhead (znz obj))))
+                                    (kseq
+                                      (k_addr (fun a -> (a.ms.p p0).qn) val0)
+                                      (fun a -> Some
+                                      (set_push a p0 Z0 false))))
+                           else if Z.eqb c (Zpos (XI XH))
                                 then kseq (k_cons actor)
                                        (kseq (in_call Z0)
-                                         (kseq (kstep (fun _ -> PopIf))
+                                         (kseq (kstep (fun _ -> Pop))
                                            (fun a -> Some
-                                           (set_kcall (set_thr a val0) (Zpos
-                                             (XI (XO XH)))))))
-                                else if Z.eqb c (Zpos (XI (XI XH)))
+                                           (set_kcall a (Zpos (XI XH))))))
+                                else if Z.eqb c (Zpos (XI (XO XH)))
                                      then kseq (k_cons actor)
                                             (kseq (in_call Z0)
-                                              (kseq (kstep (fun _ -> Peek))
+                                              (kseq (kstep (fun _ -> PopIf))
                                                 (fun a -> Some
-                                                (set_kcall a (Zpos (XI (XI
-                                                  XH)))))))
-                                     else if Z.eqb c (Zpos (XI (XO (XO XH))))
+                                                (set_kcall (set_thr a val0)
+                                                  (Zpos (XI (XO XH)))))))
+                                     else if Z.eqb c (Zpos (XI (XI XH)))
                                           then kseq (k_cons actor)
                                                  (kseq (in_call Z0)
                                                    (kseq
-                                                     (kstep (fun _ ->
-                                                       IsEmpty)) (fun a ->
-                                                     Some
+                                                     (kstep (fun _ -> Peek))
+                                                     (fun a -> Some
                                                      (set_kcall a (Zpos (XI
-                                                       (XO (XO XH))))))))
-                                          else if Z.eqb c (Zpos (XI (XI (XO
+                                                       (XI XH)))))))
+                                          else if Z.eqb c (Zpos (XI (XO (XO
                                                     XH))))
                                                then kseq (k_cons actor)
                                                       (kseq (in_call Z0)
                                                         (kseq
-                                                          (k_handle val0
-                                                            (fun x -> Remove
-                                                            x)) (fun a ->
-                                                          Some
+                                                          (kstep (fun _ ->
+                                                            IsEmpty))
+                                                          (fun a -> Some
                                                           (set_kcall a (Zpos
-                                                            (XI (XI (XO
+                                                            (XI (XO (XO
                                                             XH))))))))
-                                               else if Z.eqb c (Zpos (XI (XO
-                                                         (XI XH))))
+                                               else if Z.eqb c (Zpos (XI (XI
+                                                         (XO XH))))
                                                     then kseq (k_cons actor)
                                                            (kseq (in_call Z0)
-                                                             (k_handle val0
-                                                               (fun x ->
-                                                               DropH x)))
-                                                    else if Z.eqb c (Zpos (XO
-                                                              (XI (XI XH))))
+                                                             (kseq
+                                                               (k_handle val0
+                                                                 (fun x ->
+                                                                 Remove x))
+                                                               (fun a -> Some
+                                                               (set_kcall a
+                                                                 (Zpos (XI
+                                                                 (XI (XO
+                                                                 XH))))))))
+                                                    else if Z.eqb c (Zpos (XI
+                                                              (XO (XI XH))))
                                                          then kseq
                                                                 (k_cons actor)
                                                                 (kseq
                                                                   (in_call Z0)
-                                                                  (kseq
+                                                                  (k_handle
+                                                                    val0
+                                                                    (fun x ->
+                                                                    DropH x)))
+                                                         else if Z.eqb c
+                                                                   (Zpos (XO
+                                                                   (XI (XI
+                                                                   XH))))
+                                                              then kseq
+                                                                    (k_cons
+                                                                    actor)
+                                                                    (kseq
+                                                                    (in_call
+                                                                    Z0)
+                                                                    (kseq
                                                                     (k_handle
                                                                     val0
                                                                     (fun x ->
@@ -1180,10 +1196,12 @@ let accept_code c actor obj val0 =
                                                                     (XO (XI
                                                                     (XI
                                                                     XH))))))))
-                                                         else if Z.eqb c
-                                                                   (Zpos (XO
-                                                                   (XO XH)))
-                                                              then kseq
+                                                              else if 
+                                                                    Z.eqb c
+                                                                    (Zpos (XO
+                                                                    (XO XH)))
+                                                                   then 
+                                                                    kseq
                                                                     (k_cons
                                                                     actor)
                                                                     (kseq
@@ -1200,11 +1218,12 @@ let accept_code c actor obj val0 =
                                                                     Some
                                                                     (set_kcall
                                                                     a Z0)))))
-                                                              else if 
+                                                                   else 
+                                                                    if 
                                                                     Z.eqb c
                                                                     (Zpos (XO
                                                                     (XI XH)))
-                                                                   then 
+                                                                    then 
                                                                     kseq
                                                                     (k_cons
                                                                     actor)
@@ -1222,7 +1241,7 @@ let accept_code c actor obj val0 =
                                                                     Some
                                                                     (set_kcall
                                                                     a Z0)))))
-                                                                   else 
+                                                                    else 
                                                                     if 
                                                                     Z.eqb c
                                                                     (Zpos (XO
